@@ -406,6 +406,8 @@ SHRINK_DEADLINE = [None]
 
 def shrink(prop, fam, case, pred, rounds=40, width=64):
     cur = case
+    if os.environ.get("VERIF_NOSHRINK"):
+        return cur
     if SHRINK_DEADLINE[0] is None:
         SHRINK_DEADLINE[0] = time.time() + float(os.environ.get("VERIF_SHRINK_BUDGET", "90"))
     for _ in range(rounds):
